@@ -94,7 +94,12 @@ def run_probes_parallel(op_lists: list[list], wd: Path, tag: str, extra_path: Pa
                                        stderr=subprocess.PIPE, text=True), op))
     outs = []
     for p, op in procs:
-        _, err = p.communicate()
+        try:
+            _, err = p.communicate(timeout=3600)
+        except subprocess.TimeoutExpired:
+            for q, _ in procs:
+                q.kill()
+            raise MachineryError("probe did not finish within an hour (a call that never returns?)")
         if p.returncode != 0:
             raise MachineryError(f"probe failed ({p.returncode}): {err[-2000:]}")
         with open(op) as fp:
